@@ -274,3 +274,23 @@ def replay(rep):
     finally:
         shutil.rmtree(scratch, ignore_errors=True)
     return True, "property holds on this input"
+
+
+def shrink(inp, fails, budget_s):
+    """fewer tables, then fewer columns, then fewer rows, with the same verdict"""
+    base = {k: v for k, v in inp.items() if k not in ("text", "table")}
+    tabs = common.ddmin(base["tables"], lambda c: fails(dict(base, tables=c)), budget_s * 0.3)
+    for k in range(len(tabs)):
+        def with_table(t):
+            return dict(base, tables=tabs[:k] + [t] + tabs[k + 1:])
+        t = tabs[k]
+        cols = common.ddmin(t["columns"], lambda c: fails(with_table(dict(t, columns=c))), budget_s * 0.2)
+        t = dict(t, columns=cols)
+        n_row = len(cols[0]["values"]) if cols else 0
+
+        def rows_kept(idx):
+            return dict(t, columns=[dict(c, values=[c["values"][i] for i in idx]) for c in t["columns"]])
+        idx = common.ddmin(list(range(n_row)), lambda ix: fails(with_table(rows_kept(ix))), budget_s * 0.4) \
+            if n_row > 1 else list(range(n_row))
+        tabs[k] = rows_kept(idx)
+    return dict(base, tables=tabs)
